@@ -1150,7 +1150,7 @@ func (p Patch) test(doc *container, op Operation, options *ApplyOptions) error {
 
 	ov := op.value()
 
-	if val == nil {
+	if val.isNull() {
 		if ov.isNull() {
 			return nil
 		}
